@@ -340,6 +340,9 @@ impl<C: PixelColor> embedded_graphics::draw_target::DrawTarget for SkipT<C> {
             if first > 0 && it.nth(first - 1).is_none() {
                 return Ok(());
             }
+            // (never more than one colour beyond the area: the default `fill_solid` hands an infinite stream over)
+            let limit = (w * area.size.height as usize).saturating_sub(first) + 1;
+            let mut it = it.take(limit);
             let (window, ax, ay) = (self.window, area.top_left.x, area.top_left.y);
             let map = &mut self.map;
             let mut put = |idx: usize, c: C| {
